@@ -30,7 +30,7 @@ struct App {
     float af[4]; int ai[5]; bool at[3]; int ao[3];
     Sub sub; Sub subs[3]; Sub *psub;
     Sub psub_store;
-    App() { memset((void *)this, 0, sizeof *this); psub = &psub_store; }
+    App() { memset((void *)this, 0, sizeof *this); psub = &psub_store; pi_neg = -20; pf_log = 1.0f; }   // every field starts inside its declared range
     static const rtosc::Ports ports;
 };
 
